@@ -31,6 +31,21 @@ open Ruma Ruma.Auth Ruma.Ident Ruma.PowerLevels
 
 /-! ## Part 1 — levels: the helper holds what the rules read -/
 
+/-- Every room version 3–11 (indeed 1–11) has a rule set, so each theorem below, stated for all rule
+sets, holds in particular in every room version of the property's quantifier. -/
+example : ∀ v ∈ [3, 4, 5, 6, 7, 8, 9, 10, 11], (AuthRules.ofVersion? v).isSome = true := by decide
+
+/-- Outside the property (it speaks of a room *with* a power-levels event): without one the rules
+give the room's creator level 100, whereas the helper built from the default content gives every
+user level 0. -/
+example (rules : AuthRules) (creator : Str) :
+    plUserLevel rules none creator creator = .ok 100 ∧
+    (ofContent []).map (fun p => p.forUser creator) = some 0 := by
+  constructor
+  · simp [plUserLevel, defaultCreatorPowerLevel]
+  · rfl
+
+
 /-- **The helper can read whatever the rules can.** A power-levels content that the rules of some
 version read in full (`authWF`) is deserialized by the helper — so in the setting of the theorems
 below the requirement "the helper can deserialize the content" costs nothing beyond `authWF`. (The
